@@ -354,6 +354,10 @@ func main() {
 			x.ibbReplay(cc.Actions, "replay")
 		case "ibb-expect":
 			x.ibbExpectStall()
+		case "receipts-first-use", "race":
+			for i := 0; i < 8; i++ {
+				x.rxConcurrentFirstUse()
+			}
 		}
 	} else {
 		for _, acts := range coreCorpus {
@@ -369,6 +373,9 @@ func main() {
 			x.ibbReplay(acts, "corpus")
 		}
 		x.ibbExpectStall()
+		for i := 0; i < 4; i++ {
+			x.rxConcurrentFirstUse()
+		}
 		walks, budget := 400, 600
 		if o.Thorough() {
 			walks, budget = 5000, 6000
